@@ -7,7 +7,7 @@ VERIF = os.path.dirname(os.path.dirname(os.path.abspath(__file__)))
 CLAIMED = {
     "C20": {
         "technique": "Lean 4 refinement proof (Datagroup model refines an insertion-ordered dictionary spec over all op sequences; eq iff content) + op-sequence correspondence with the real classes",
-        "text": "Theorems C20_refines_dict / C20_keys_nodup / C20_rename_on_set / C20_shape_gate / C20_eq_iff hold for every operation sequence and every pair of groups of the Lean model; the model is tied to /repo by running random dictionary-operation programs and group pairs on the real Datagroup/Dataset and on the compiled model and diffing every observation.",
+        "text": "Theorems C20_refines_dict / C20_keys_nodup / C20_rename_on_set / C20_shape_gate / C20_eq_iff hold for every operation sequence and every pair of groups of the Lean model; C20_dataset_refines_dict / C20_dataset_keys_nodup give the same refinement for the table of a Dataset (any value type; the isinstance gate is in Exec and compared by correspondence); the model is tied to /repo by running random dictionary-operation programs and group pairs on the real Datagroup/Dataset and on the compiled model and diffing every observation.",
         "note": "trusted: Lean kernel + propext/Classical.choice/Quot.sound; the hand-written model of datagroup.py/dataset.py and the correspondence harness; numpy comparison and pint conversion are modelled",
         "design_ref": "5 C20",
     },
